@@ -55,3 +55,17 @@ claim(
     "Not decided: equality of instants to the millisecond and durations to the microsecond for 1970..2100 (float*1e6, INTEGER affinity, DECIMAL text, julianday) - numeric, not visible in code shape. Trusted: deepcopy yields a disjoint graph; json/SQLite hold no Python references.",
     "flow-sensitive access-path points-to / escape analysis with context-sensitive inlining; writer/reader table agreement over the embedded-SQL model",
 )
+claim(
+    "C09",
+    "other",
+    "Decided for all inputs: filter_period_intersect leaves both input lists and every input event untouched at any depth (points-to analysis through the helper's in-place sorts and the deep copy); every result piece is the first list's event, deep-copied, cut to the pair's intersection; every path through the two-pointer sweep's loop body advances an index, advances one alone only under the literal that makes dropping that event safe, and yields exactly on the intersecting path; period_union sweeps the sorted concatenation, merges on `not gap` and clears data.",
+    "Exactness (soundness AND completeness against set-theoretic intersection/union for every placement, total-duration equalities) is a loop invariant over unbounded lists and is NOT decided. Third-party Timeslot semantics are trusted (gap's strictness is inspected).",
+    "access-path points-to purity analysis; loop-body path enumeration with affine canonicalisation of path literals (sweep safety); structural provenance matching",
+)
+claim(
+    "C10",
+    "other",
+    "Decided for all inputs: flood does not modify its input (points-to analysis); only events with duration > 0 are returned; pairs are consecutive elements of the timestamp-sorted copy; the fill branch is entered on gap <= pulsetime (non-strict) and no other gap condition excludes a positive gap; in each of the four fill sub-branches the assignments, propagated as affine forms, close the gap exactly without losing covered time or creating overlap (differing data) or merge into one covering event and empty the other (equal data).",
+    "The property proper - non-overlap, coverage and label monotonicity over chains of three and more events - depends on how these local steps compose while the loop mutates neighbours; no static argument in reach decides it and it is NOT claimed.",
+    "points-to purity analysis; loop-body path enumeration with constant propagation of affine forms and pairwise infeasible-path pruning",
+)
